@@ -587,6 +587,18 @@ def _has_load(v):
     return any(isinstance(x, Term) and x.op == 'load' for x in _subterms(v))
 
 
+def _merge_arith(rep, ctx, val):
+    """64-bit arithmetic: every symbolic shift/mask feeding the merge is computed in a 64-bit type"""
+    for e in ctx.events:
+        if e[0] == 'binop' and e[1] in ('<<', '&', '|'):
+            uses = e[4] is val or _contains(val, e[4])
+            if uses:
+                bits = ctype_bits(e[2])
+                rep.ob('R05.4', '%s:write_gvar_data:merge-arithmetic-64-bit(%s)' % (U, e[1]), bits == 64,
+                       'the bit-field merge computes `%s` in the %s-bit type `%s`: bit-fields of width >= %d (or ending above bit %d) are truncated' % (e[1], bits, e[2], (bits or 32) - 1, (bits or 32) - 1),
+                       where='%s:%d' % (U, e[3]))
+
+
 def r054_path(be, it, ctx, mems, rep, union=False):
     """static bit-field merge on one fully walked struct path (union=True: the chosen member of a union, which lives at offset 0)"""
     init = ctx.root_init
@@ -627,6 +639,7 @@ def r054_path(be, it, ctx, mems, rep, union=False):
             # old bytes, field width and field offset all enter the stored value, but not in the shape this rule can read (e.g. a mask written
             # `~0UL >> (64 - w)`): the rule compares terms, it does not evaluate them, so an unknown shape gets no verdict (never a guessed one)
             rep.undecided('R05.4', '%s:write_gvar_data:merge-formula' % U, 'the value stored for a bit-field (%s) combines the old bytes, bit_width and bit_offset in a form the rule does not recognise' % show(val), where=where)
+            _merge_arith(rep, ctx, val)       # the width of the arithmetic is judged whatever the shape
             continue
         if f is None:
             # the path branched on the folded initializer value itself (`eval_truth(e) ? 1 : 0`): the stored term holds a constant, the formula cannot be compared
@@ -688,15 +701,7 @@ def r054_path(be, it, ctx, mems, rep, union=False):
                 rep.ob('R05.4', '%s:write_gvar_data:merge-mask-full-width' % U, excluded,
                        'the mask (1L << bit_width) - 1 is computed for every width including 64: for a bit-field as wide as its 64-bit type (`long a:64`) the shift count equals the '
                        'type width (undefined; 1L << 64 == 1 on x86), the mask becomes 0 and the member is stored as 0', where='%s:%d' % (U, sh[0][3]))
-        # 64-bit arithmetic: every symbolic shift/mask feeding the merge is computed in a 64-bit type
-        for e in ctx.events:
-            if e[0] == 'binop' and e[1] in ('<<', '&', '|'):
-                uses = e[4] is val or _contains(val, e[4])
-                if uses:
-                    bits = ctype_bits(e[2])
-                    rep.ob('R05.4', '%s:write_gvar_data:merge-arithmetic-64-bit(%s)' % (U, e[1]), bits == 64,
-                           'the bit-field merge computes `%s` in the %s-bit type `%s`: bit-fields of width >= %d (or ending above bit %d) are truncated' % (e[1], bits, e[2], (bits or 32) - 1, (bits or 32) - 1),
-                           where='%s:%d' % (U, e[3]))
+        _merge_arith(rep, ctx, val)
 
 
 def _store_place(s):
